@@ -297,7 +297,29 @@ pub fn run(ctx: &mut Ctx, replay: Option<&str>) {
     for f in &flows {
         ctx.evaluations += 1;
         describe_flow(ctx, f);
-        let mut run = run_flow(ctx, f);
+        // every fourth flow is issued by an issuer instance that has already issued another credential (other claims, a holder
+        // key bound, decoys on, the other format) or has just refused one: an issuer is reusable (C11)
+        let mut run = if ctx.evaluations % 4 == 1 {
+            let mut warm = f.issue.clone();
+            warm.claims = json!({"iss": "https://other-issuer.example", "exp": crate::imp::now() + 5000, "warm": {"up": [1, {"x": 2}]}, "n": 1});
+            warm.strategy = Strategy::All;
+            warm.holder = Some(if ctx.evaluations % 8 == 1 { crate::keys::KeyId::HolderEc2 } else { crate::keys::KeyId::HolderEd });
+            warm.decoy = true;
+            warm.fmt = f.issue.fmt.other();
+            if ctx.evaluations % 12 == 5 {
+                warm.claims = json!([1, 2]);
+            }
+            match issue_sequence(f.issue.key, f.issue.alg.clone(), vec![warm, f.issue.clone()]) {
+                Some(mut seq) if seq.len() == 2 => {
+                    ctx.impl_calls += 2;
+                    ctx.count("issuer.reused_instance");
+                    run_flow_from(ctx, f, seq.pop().unwrap())
+                }
+                _ => run_flow(ctx, f),
+            }
+        } else {
+            run_flow(ctx, f)
+        };
         // every third flow presents from a holder instance that has already produced another presentation (select everything,
         // no key binding): a holder is reusable (C11), so the flow's own presentation must be what a fresh holder produces
         if ctx.evaluations % 3 == 0 {
